@@ -37,6 +37,7 @@ class World:
         self.checkouts = 0      # connections handed out by the supplied pool
         self.idle_closed = 0    # keep-alive connections the server closed while they sat idle in the pool
         self.idle_allowed = True
+        self.unstarted = 0
 
     def fail(self, kind, where, detail):
         if len(self.failures) < 20:
@@ -151,7 +152,10 @@ class TrackSet(set):
         self.world = world
 
     def add(self, task):
-        self.world.rel_tasks.append(task)
+        if asyncio.isfuture(task):
+            self.world.rel_tasks.append(task)
+        else:
+            self.world.unstarted += 1       # a check-in that was not started as a task
         super().add(task)
 
 
